@@ -348,7 +348,7 @@ class Interp:
                 S.define(p, D.join(S.ivof(a), S.ivof(b)))
         return out
 
-    def freshen(self, v, S, key, efacts=(), _path=(), elem_of=None):
+    def freshen(self, v, S, key, efacts=(), _path=(), elem_of=None, prov=None, off=None):
         """Copy of a summary value with fresh symbols (one concrete element of a smashed sequence).
         elem_of = (len symbol of the sequence, index symbol, block): remember which element this is."""
         m = {}
@@ -374,6 +374,9 @@ class Interp:
         if elem_of is not None:
             for fpath, s in m.items():
                 self.elem_of[s] = elem_of + (fpath,)
+        if prov and self.hooks:
+            for h in self.hooks:
+                h("elem_read", interp=self, prov=prov, off=off, value=out, state=S)
         return out
 
     # ------------------------------------------------------------------ memory
@@ -425,7 +428,7 @@ class Interp:
                     else:
                         v = self.join_vals(S, [v.elems[k] for k in ks], site + (n,))
                 elif isinstance(v, Seq):
-                    v = self.freshen(v.elem, S, site + (n,), v.efacts, elem_of=(v.len, s, site[1] if len(site) > 1 else None)) if v.elem is not None else BOT
+                    v = self.freshen(v.elem, S, site + (n,), v.efacts, elem_of=(v.len, s, site[1] if len(site) > 1 else None), prov=v.prov) if v.elem is not None else BOT
                 else:
                     return Opaque()
             elif tag == "ci":
@@ -434,7 +437,7 @@ class Interp:
                     k = len(v.elems) - off if fe else off
                     v = v.elems[k] if 0 <= k < len(v.elems) else BOT
                 elif isinstance(v, Seq):
-                    v = self.freshen(v.elem, S, site + (n,), v.efacts) if v.elem is not None else BOT
+                    v = self.freshen(v.elem, S, site + (n,), v.efacts, prov=v.prov, off=(None if fe else off)) if v.elem is not None else BOT
                 else:
                     return Opaque()
             elif tag == "sub":
@@ -452,7 +455,7 @@ class Interp:
                     return Opaque()
             elif tag == "elem":
                 if isinstance(v, Seq):
-                    v = self.freshen(v.elem, S, site + (n,), v.efacts) if v.elem is not None else BOT
+                    v = self.freshen(v.elem, S, site + (n,), v.efacts, prov=v.prov) if v.elem is not None else BOT
                 elif isinstance(v, Arr):
                     v = self.join_vals(S, list(v.elems), site + (n,))
                 else:
